@@ -437,4 +437,6 @@ def subspace_minimization(
         ),
     )
     # Eq (5.2) -> update free variables only
-    return xc + alpha_star * Z @ dHat
+    # (projected: rounding in xc + alpha_star * dHat may leave the box by one ulp, which
+    # makes the maximum feasible step of the line search zero for a variable on a bound)
+    return np.clip(xc + alpha_star * Z @ dHat, lb, ub)
